@@ -50,6 +50,7 @@ func runC16(c *Ctx) {
 	c.Rule("C16.O3", "E5,E4", "read timer -> errReadTimeout, write timer -> errWriteTimeout, dial timer -> ErrDialTimeout; callbacks only call closeWithError", 5)
 	c.Rule("C16.O4", "E4", "closeWithError stops and clears both timers in the critical section that sets closed", 1)
 	c.Rule("C16.O5", "E4", "Write/Writev: the queue-empty edge stops and clears the write timer before the unlock", 2)
+	c.Rule("C16.O7", "E4", "DialAsyncTimeout arms the dial timer before the connection is registered with its poller: nothing arms a timer after the registration, when the completion that clears it may already have run", 1)
 	c.Rule("C16.O6", "E5,E4", "keep-alive renewal sites exist and pass time.Now().Add(<engine>.KeepaliveTime)", 7)
 
 	L := c.Locks()
@@ -63,6 +64,10 @@ func runC16(c *Ctx) {
 		}
 		for _, s := range eng.CheckGuarded(L, c.libFuncs(), table, nil) {
 			key := fmt.Sprintf("%s: %s %s", c.P.FuncName(s.Fn), rw(s.Access.Write), s.Access.Field)
+			if !s.Held && s.Access.Addr != nil && c.freshUnpublished(s.Fn, s.Access.In, s.Access.Addr.X) {
+				c.OK("C16.O1", key, c.Pos(s.Access.In), "initialisation of a connection allocated in this function and not yet registered with a poller")
+				continue
+			}
 			c.Cond(s.Held, "C16.O1", key, c.Pos(s.Access.In), "Conn.mux held", s.Access.Field+" accessed without Conn.mux")
 		}
 		// address-taken: only as the first argument of setDeadline
@@ -127,8 +132,20 @@ func runC16(c *Ctx) {
 					}
 				}
 				bad := ""
+				freshCell := false
+				if refs := cs.Value().Referrers(); refs != nil {
+					for _, r := range *refs {
+						if st, ok := r.(*ssa.Store); ok && st.Val == cs.Value() {
+							if fa, isFA := st.Addr.(*ssa.FieldAddr); isFA && c.freshUnpublished(f, st, fa.X) && len(c.P.StoresTo(f, place)) == 1 {
+								freshCell = true
+							}
+						}
+					}
+				}
 				if place == "" {
 					bad = "the new timer is not stored in a timer cell: it could never be stopped"
+				} else if freshCell {
+					// the cell of a connection allocated here and not yet registered is nil by construction
 				} else if !fi.HasFact(cs.In, func(ft ir.Fact) bool {
 					x, isNil, ok := ir.NilTest(ft.Cond, ft.Truth)
 					return ok && isNil && c.timerPlaceOfValue(x) == place
@@ -220,6 +237,31 @@ func runC16(c *Ctx) {
 				c.Cond(known && got == want, "C16.O3", key, c.Pos(cs.In), got, "setDeadline is called with "+got+", expected "+want)
 			}
 		}
+		// the dial timer may also be armed directly on the not yet registered connection
+		if da := c.Fn("C16.O3", "(*nbio.Engine).DialAsyncTimeout"); da != nil {
+			for _, cs := range c.P.CallsNamed(da, "(*timer.Timer).AfterFunc") {
+				place := ""
+				if refs := cs.Value().Referrers(); refs != nil {
+					for _, r := range *refs {
+						if st, ok := r.(*ssa.Store); ok && st.Val == cs.Value() {
+							place = c.timerPlace(st.Addr)
+						}
+					}
+				}
+				seen++
+				key := c.P.FuncName(da) + ": dial timer callback"
+				mc, ok := cs.Common.Args[2].(*ssa.MakeClosure)
+				if !ok {
+					c.Bad("C16.O3", key, c.Pos(cs.In), "callback is not a local closure")
+					continue
+				}
+				got, bad := c.closeErrOf(mc.Fn.(*ssa.Function))
+				if bad == "" && (got != "nbio.ErrDialTimeout" || place != fConnWTimer) {
+					bad = "the dial timer is stored in " + place + " and closes with " + got + ", expected " + fConnWTimer + " and nbio.ErrDialTimeout"
+				}
+				c.Cond(bad == "", "C16.O3", key, c.Pos(cs.In), "closeWithError(nbio.ErrDialTimeout), stored in the write-timer cell that the completion clears", bad)
+			}
+		}
 		if seen != 3 {
 			c.Unres("C16.O3", "setDeadline call sites", fmt.Sprintf("found %d, expected 3", seen))
 		}
@@ -286,6 +328,22 @@ func runC16(c *Ctx) {
 				bad = ""
 			}
 		}
+		// the queue state that justifies the clear is the one after this call's own write:
+		// nothing that can enqueue may still run after the clear
+		_, enq := c.writeSinks()
+		for _, st := range c.P.StoresTo(fn, fConnWTimer) {
+			if !ir.IsNilConst(st.Val) {
+				continue
+			}
+			vis, _ := fi.Reach([]ssa.Instruction{st}, nil)
+			for in := range vis {
+				if cs, ok := ir.AsCall(in); ok {
+					if callee := ir.StaticCallee(cs.Common); callee != nil && enq[callee] {
+						bad = "the write timer is cleared at " + c.Pos(st) + " before " + c.P.FuncName(callee) + " runs (" + c.Pos(in) + "): 'queue empty' is tested before this call's own bytes can be queued, so a short write leaves a backlog with no deadline"
+					}
+				}
+			}
+		}
 		// and no clear on the non-empty edge
 		for _, st := range c.P.StoresTo(fn, fConnWTimer) {
 			if fi.HasFact(st, func(ft ir.Fact) bool { e, ok := c.queueTest(ft); return ok && !e }) {
@@ -293,6 +351,40 @@ func runC16(c *Ctx) {
 			}
 		}
 		c.Cond(bad == "", "C16.O5", fnKey(c.P, fn, "write deadline auto-clear"), c.FnPos(fn), "cleared exactly on the queue-empty edge", bad)
+	}
+
+	// ------------------------------------------------------------------ O7
+	if fn := c.Fn("C16.O7", "(*nbio.Engine).DialAsyncTimeout"); fn != nil {
+		fi := c.P.Info(fn)
+		var regs []ssa.Instruction
+		for _, cs := range c.P.Calls(fn, func(name string, _ ir.CallSite) bool {
+			return name == "(*nbio.Engine).addDialer" || name == "(*nbio.poller).addDialer"
+		}) {
+			regs = append(regs, cs.In)
+		}
+		key := fnKey(c.P, fn, "dial timer armed before registration")
+		if len(regs) == 0 {
+			c.Unres("C16.O7", key, "registration call not found")
+		} else {
+			vis, _ := fi.Reach(regs, nil)
+			bad := ""
+			nArm := 0
+			for _, cs := range c.P.Calls(fn, func(name string, _ ir.CallSite) bool {
+				return name == "(*nbio.Conn).setDeadline" || name == "(*timer.Timer).AfterFunc" || name == "(*nbio.Conn).SetWriteDeadline" || name == "(*nbio.Conn).SetDeadline"
+			}) {
+				if cs.In.Parent() != fn {
+					continue
+				}
+				nArm++
+				if vis[cs.In] {
+					bad = "the dial timer is armed at " + c.Pos(cs.In) + " after the connection was registered with its poller (" + c.Pos(regs[0]) + "): a connect that completes at once clears a timer that does not exist yet, and the timer armed afterwards closes the established connection with the dial-timeout error"
+				}
+			}
+			if nArm == 0 && bad == "" {
+				bad = "no dial timer is armed"
+			}
+			c.Cond(bad == "", "C16.O7", key, c.FnPos(fn), fmt.Sprintf("%d arming site(s), all before the registration", nArm), bad)
+		}
 	}
 
 	// ------------------------------------------------------------------ O6
@@ -415,4 +507,26 @@ func (c *Ctx) isNowPlus(v ssa.Value, field string) bool {
 		return false
 	}
 	return c.P.LoadedField(ir.Resolve(call.Call.Args[1])) == field
+}
+
+// freshUnpublished: obj is a Conn allocated in fn (composite literal) and the
+// instruction executes before fn hands it to a poller (no registration call can
+// precede it).
+func (c *Ctx) freshUnpublished(fn *ssa.Function, at ssa.Instruction, obj ssa.Value) bool {
+	if at.Parent() != fn {
+		return false
+	}
+	a, ok := ir.Resolve(obj).(*ssa.Alloc)
+	if !ok || !a.Heap || a.Parent() != fn {
+		return false
+	}
+	fi := c.P.Info(fn)
+	for _, cs := range c.P.Calls(fn, func(name string, _ ir.CallSite) bool {
+		return name == "(*nbio.Engine).addDialer" || name == "(*nbio.poller).addDialer" || name == "(*nbio.Engine).AddConn" || name == "(*nbio.poller).addConn"
+	}) {
+		if cs.In.Parent() == fn && fi.CanReach(cs.In, at) {
+			return false
+		}
+	}
+	return true
 }
